@@ -19,7 +19,7 @@ EXPLANATION = (
     "bound to a parameter equals the class the callee looks that parameter up with; (R4) generated key material and IVs come from os.urandom / "
     "rsa.generate_private_key inside the call with the requested length expression, and the engine keeps no cached state.")
 
-T_ALIAS = {'RC4': 'ARC4', 'PKCS5': 'PKCS7'}      # KMIP name -> cryptography API name (same primitive)
+T_ALIAS = {'RC4': 'ARC4', 'PKCS5': 'PKCS7', 'NIST_KEY_WRAP': 'AES_KEY_WRAP', 'AES_KEY_WRAP_PADDING': 'AES_KEY_WRAP_WITH_PADDING'}      # KMIP name -> cryptography API name (same primitive)
 ATTRS = 'kmip/core/attributes.py'
 
 
@@ -423,12 +423,16 @@ def run(ctx):
     wk = get_method(cls, 'wrap_key')
     wg = CFG(wk)
     okw = False
+    from ..astutil import table_callees
     for n in wg.nodes:
         for c in calls_at(n):
-            if (call_name(c) or '') == 'keywrap.aes_key_wrap':
-                a = bind_args_simple(c)
-                under = [enum_member(cmp_parts(tt.stmt)[2])[1] for tt, lab in dominating_edges(wg, n) if cmp_parts(tt.stmt) and cmp_parts(tt.stmt)[1] == 'Eq' and lab == 'T' and enum_member(cmp_parts(tt.stmt)[2])]
-                okw = sorted(under) == ['ENCRYPT', 'NIST_KEY_WRAP'] and a[:2] == ['encryption_key', 'key_material']
+            # the callee, direct or looked up by the wrapping method in an instance table (f = self._table.get(method); f(...))
+            cands = [(call_name(c) or '', [])] if not isinstance(c.func, ast.Name) else [(dotted(v_) or '', [enum_member(k_)[1]] if enum_member(k_) else ['?']) for k_, v_ in table_callees(cls, wk, c) or ()]
+            for cn_, extra in cands:
+                if cn_ == 'keywrap.aes_key_wrap':
+                    a = bind_args_simple(c)
+                    under = [enum_member(cmp_parts(tt.stmt)[2])[1] for tt, lab in dominating_edges(wg, n) if cmp_parts(tt.stmt) and cmp_parts(tt.stmt)[1] == 'Eq' and lab == 'T' and enum_member(cmp_parts(tt.stmt)[2])]
+                    okw = sorted(under + extra) == ['ENCRYPT', 'NIST_KEY_WRAP'] and a[:2] == ['encryption_key', 'key_material']
     ctx.check(okw, 'C06.R5', 'CryptographyEngine.wrap_key|nist-key-wrap', '%s:%s CryptographyEngine.wrap_key' % (CRYPTO, wk.lineno),
               'ENCRYPT + NIST_KEY_WRAP -> keywrap.aes_key_wrap(encryption_key, key_material)', 'wrap_key does not call aes_key_wrap(wrapping key, key material) under ENCRYPT/NIST_KEY_WRAP')
 
